@@ -233,11 +233,24 @@ def extract(repo: Path):
         if "jit" not in src:
             continue
         tree = ast.parse(src)
+        funcs = {n.name: n for n in ast.walk(tree) if isinstance(n, (ast.FunctionDef, ast.AsyncFunctionDef))}
         for node in ast.walk(tree):
             if isinstance(node, (ast.FunctionDef, ast.AsyncFunctionDef)):
                 infos = [i for i in map(_decorator_info, node.decorator_list) if i is not None]
                 if infos:
                     found.append((str(rel), node, infos[0], hashlib.sha1(ast.dump(node).encode()).hexdigest()))
+            # call form: `name = nb.jit(...)(plain_function)` compiles `plain_function` under the name `name`
+            if isinstance(node, ast.Assign) and isinstance(node.value, ast.Call) and len(node.value.args) == 1 \
+                    and isinstance(node.value.args[0], ast.Name) and node.value.args[0].id in funcs:
+                info = _decorator_info(node.value.func)
+                if info is not None:
+                    import copy as _copy
+                    for tgt in node.targets:
+                        if isinstance(tgt, ast.Name):
+                            clone = _copy.deepcopy(funcs[node.value.args[0].id])
+                            clone.name = tgt.id
+                            clone.lineno = node.lineno
+                            found.append((str(rel), clone, info, hashlib.sha1(ast.dump(clone).encode()).hexdigest()))
     names = {n.name for _, n, _, _ in found}
     kernels = []
     for rel, node, info, h in found:
@@ -322,3 +335,28 @@ def render_lean(kernels) -> str:
     out.append("")
     out.append("end Glotaran.C10.Generated")
     return "\n".join(out) + "\n"
+
+
+
+def live_dispatchers():
+    """every numba dispatcher object reachable as a module attribute of glotaran (whatever syntax created it):
+    [(module, attribute name, python function name, parallel flag)] — the cross-check of the source extractor"""
+    import importlib
+    import pkgutil
+    import glotaran
+    out = []
+    try:
+        from numba.core.dispatcher import Dispatcher
+    except Exception:  # noqa: BLE001
+        return out
+    for m in pkgutil.walk_packages(glotaran.__path__, "glotaran."):
+        if ".test" in m.name or m.name.endswith(".conftest") or m.name.startswith(("glotaran.cli", "glotaran.deprecation")):
+            continue
+        try:
+            mod = importlib.import_module(m.name)
+        except Exception:  # noqa: BLE001
+            continue
+        for attr, obj in vars(mod).items():
+            if isinstance(obj, Dispatcher) and getattr(obj.py_func, "__module__", None) == mod.__name__:
+                out.append((mod.__name__, attr, obj.py_func.__name__, bool(obj.targetoptions.get("parallel", False))))
+    return sorted(set(out))
